@@ -5,6 +5,7 @@ go 1.23
 require (
 	github.com/anz-bank/golden-retriever v0.43.0
 	github.com/anz-bank/sysl v0.0.0
+	github.com/arr-ai/arrai v0.321.0
 	github.com/getkin/kin-openapi v0.124.0
 	github.com/sirupsen/logrus v1.9.3
 	github.com/spf13/afero v1.11.0
@@ -22,7 +23,6 @@ require (
 	github.com/alecthomas/units v0.0.0-20190717042225-c3de453c63f4 // indirect
 	github.com/antlr/antlr4/runtime/Go/antlr v0.0.0-20211115101625-aeaa445b4d4f // indirect
 	github.com/anz-bank/pkg v0.0.48 // indirect
-	github.com/arr-ai/arrai v0.321.0 // indirect
 	github.com/arr-ai/frozen v0.20.3 // indirect
 	github.com/arr-ai/hash v1.1.0 // indirect
 	github.com/arr-ai/wbnf v0.35.3 // indirect
